@@ -352,7 +352,9 @@ CLAIMS = {
     "C17": dict(
         text="Lean theorems (Props/C17.lean): copy_path_into_buffer returns the full length, keeps the buffer size, writes exactly "
              "min(len,bufsize) bytes and leaves the rest; negative descriptors, NULL paths, unknown procfs bases and invalid "
-             "mknod modes make the entry point a bare error leaf (no system call at all); base/mode decoding tables. Tie: every "
+             "mknod modes make the entry point a bare error leaf (no system call at all); base/mode decoding tables (mknod succeeds "
+             "only for five type fields, the permission argument carries no type bits); retry/truncation/prefix laws of the "
+             "buffer contract. Oracles for each invalid-argument class (descriptor, path, mknod type field, procfs base). Tie: every "
              "C function x argument class and the readlink buffer matrix (with canaries) are driven through the real exported "
              "symbols and replayed through the model, including returned lengths and buffer contents.",
         note="The C glue is modelled in lean/Pathrs/Capi.lean; pointer validity of non-NULL arguments is the caller's obligation "
